@@ -627,6 +627,11 @@ func (f *Flow) Replace() {
 		mut = "rep-fabricated"
 	}
 	orig = append([]byte(nil), orig...)
+	if g.r.Chance(1, 5) {
+		// the other replacement type on this original (e.g. replace-message on a module-sent burn message)
+		deposit = !deposit
+		mut += "+rep-cross-kind"
+	}
 	switch g.r.Intn(16) {
 	case 0:
 		from = f.acctStr()
